@@ -725,3 +725,39 @@ Fixpoint id_mismatches (fixed : bool) (M : mtables) (i : nat) (l : list idcase) 
   | c :: r => let k := check_idcase fixed M c in
               if Nat.eqb k 0 then id_mismatches fixed M (S i) r else (i, k) :: id_mismatches fixed M (S i) r
   end.
+
+(* ------------------------------------------------------------------ executable check for the C09 correspondence *)
+Record fcase := {
+  fc_enabled : bool;
+  fc_validate : bool;
+  fc_cls : string;
+  fc_kw : list (string * value XF);
+  fc_vchild : bool;                 (* oracle: validate() of the same class constructed directly with the same keywords *)
+  fc_cell : option (obj XF);        (* oracle: what Cell.setup_nml_cell made of it *)
+  fc_code : nat * list string;      (* observed: 0 returned a component, else exn_code *)
+  fc_ret : option (obj XF);         (* observed returned component *)
+  fc_disabled : option nat          (* observed "Build time validation is disabled." records *)
+}.
+
+(* bit 1 outcome, 2 returned component, 4 log records *)
+Definition check_fcase (M : mtables) (T : tables) (c : fcase) : nat :=
+  let r := component_factory XF dec_norm (fun _ => fc_vchild c)
+                             (fun o => match fc_cell c with Some q => q | None => o end) (fun l => l)
+                             M T (fc_enabled c) (fc_validate c) (fc_cls c) (fc_kw c) in
+  let code := match fst r with Ret _ => (0%nat, []) | Err e => exn_code e end in
+  let b1 := Nat.eqb (fst code) (fst (fc_code c)) && set_eqb (snd code) (snd (fc_code c)) in
+  let b2 := match fst r, fc_ret c with
+            | Ret o, Some x => x_obj_eqb o x
+            | Ret _, None => false
+            | Err _, Some _ => false
+            | Err _, None => true
+            end in
+  let b3 := match fc_disabled c with Some n => Nat.eqb n (count_disabled (snd r)) | None => true end in
+  ((if b1 then 0 else 1) + (if b2 then 0 else 2) + (if b3 then 0 else 4))%nat.
+
+Fixpoint factory_mismatches (M : mtables) (T : tables) (i : nat) (l : list fcase) : list (nat * nat) :=
+  match l with
+  | [] => []
+  | c :: r => let k := check_fcase M T c in
+              if Nat.eqb k 0 then factory_mismatches M T (S i) r else (i, k) :: factory_mismatches M T (S i) r
+  end.
